@@ -16,7 +16,7 @@ RELEVANT = {
     "internal/glob/glob.go": ["C01", "C05"],
     "nfpm.go": ["C13", "C14", "C16", "C02", "C11", "C06"],
     "deb/deb.go": ["C01", "C02", "C03", "C04", "C06", "C08", "C09", "C10", "C15", "C07"],
-    "rpm/rpm.go": ["C01", "C02", "C03", "C04", "C08", "C09", "C10", "C14", "C15", "C07"],
+    "rpm/rpm.go": ["C01", "C02", "C03", "C04", "C06", "C08", "C09", "C10", "C14", "C15", "C07"],
     "apk/apk.go": ["C01", "C02", "C03", "C04", "C06", "C09", "C10", "C15", "C07"],
     "arch/arch.go": ["C01", "C02", "C03", "C04", "C06", "C08", "C09", "C15", "C07"],
     "ipk/ipk.go": ["C01", "C02", "C03", "C04", "C06", "C08", "C09", "C15", "C07"],
